@@ -38,7 +38,7 @@ def main():
     tgt = f"/tmp/seed/{name}/target"
     env = {"CARGO_TARGET_DIR": tgt}
     # normalise the worktree: clean checkout of the commit + patch
-    sh("git stash -u -q || true; git checkout -q -- . ", cwd=wt)
+    sh("git reset -q --hard; git clean -fdq", cwd=wt)
     rc, o = sh(f"git apply --check {patch}", cwd=wt)
     base = "HEAD"
     res["patch_applies_to_worktree"] = rc == 0
